@@ -16,7 +16,7 @@ from sim import world as Wd
 ID = 'C13'
 LEVEL = 'exploration'
 ENGINE = 'history'
-BUDGET = {'quick': 3000, 'thorough': 200000}
+BUDGET = {'quick': 10000, 'thorough': 200000}
 WALL = {'quick': 45, 'thorough': 1500}
 RULE = ('one trash-restore per case: trash with prefix-sharing original locations (/a/foo, /a/foobar, /a/foo/x, deep paths) '
         'over several volumes; scope = cwd or path argument; --sort date|path|none; reply from a grammar fuzzer (digits , - '
